@@ -22,7 +22,7 @@ RULE = ('enum: case = (program, start offset, end offset, text); non-trivial = d
 ASSUMPTIONS = ['Module-rooted trees', 'validity == ast.parse accepts the whole new source']
 BOUNDS = {
     'quick': '20 programs, all rectangles with span <= 6 chars, 17 texts; reparse() on every node; depth 2 on 4 programs '
-             'with span <= 2 and 6 texts',
+             'with span <= 2 and 6 texts; rectangles = extent of every node / run of sibling statements (any length) x 9 texts',
     'thorough': '20 programs, all rectangles with span <= 40 chars, 17 texts; depth 2 on all programs with span <= 3',
 }
 
@@ -49,6 +49,7 @@ PROGRAMS = [
     "class C:\n    @d\n    def m(s): return 1\n    x = 'é'; y = (\n        2)",
 ]
 TEXTS = ['', ' ', 'x', '\n', ':', '#', '(', ')', 'pass', '\n    ', '=', 'if ', ';', ',', 'é', '\\\n', '"']
+TEXTS_EXTENT = ['', 'x', 'pass', 'p; q', '(p,\n q)', 'é', '#']
 for _p in PROGRAMS:
     ast.parse(_p)
 
@@ -68,6 +69,7 @@ def shards(tier):
         for s in range(0, len(p) + 1, step):
             out.append({'kind': 'rect', 'prog': i, 'from': s, 'to': min(s + step, len(p) + 1)})
         out.append({'kind': 'reparse', 'prog': i})
+        out.append({'kind': 'extent', 'prog': i})
         out.append({'kind': 'rawput', 'prog': i})
     d2 = (1, 3, 8, 14) if tier == 'quick' else range(len(PROGRAMS))
     for i in d2:
@@ -190,6 +192,33 @@ def run_shard(desc, tier, res):
                     if o1 == o2 and not text:
                         continue
                     run_rect(fst, pi, o1, o2, text, res)
+    elif desc['kind'] == 'extent':
+        # rectangles that are exactly the extent of a node or of a run of sibling statements (any length, multi-line included),
+        # and the same rectangles reaching into the following ';' statement / up to the end of the last line
+        lines = src.split('\n')
+
+        def off(ln, col):
+            return O.offset_of(lines, ln - 1, O.byte2char(lines[ln - 1], col))
+        tree = ast.parse(src)
+        rects = set()
+        for path, node in O.iter_nodes(tree):
+            if hasattr(node, 'lineno'):
+                a, b = off(node.lineno, node.col_offset), off(node.end_lineno, node.end_col_offset)
+                rects.add((a, b))
+                eol = src.find('\n', b)
+                rects.add((a, len(src) if eol < 0 else eol))
+            for fld in ('body', 'orelse', 'finalbody'):
+                lst = getattr(node, fld, None)
+                if isinstance(lst, list) and lst and isinstance(lst[0], ast.stmt):
+                    for i in range(len(lst)):
+                        for j in range(i + 1, len(lst) + 1):
+                            rects.add((off(lst[i].lineno, lst[i].col_offset), off(lst[j - 1].end_lineno, lst[j - 1].end_col_offset)))
+        for o1, o2 in sorted(rects):
+            if o2 - o1 <= SPAN[tier]:
+                continue  # covered by the all-rectangles pass
+            ind = ' ' * (o1 - (src.rfind('\n', 0, o1) + 1))
+            for text in TEXTS_EXTENT + [f'p\n{ind}q', f'if p:\n{ind}    q\n{ind}r']:
+                run_rect(fst, pi, o1, o2, text, res)
     elif desc['kind'] == 'reparse':
         tree = ast.parse(src)
         for path, node in O.iter_nodes(tree):
